@@ -14,6 +14,11 @@ Case kinds
            D: the outcome is a tree or `oal.ParseException`, within a time budget linear in the length
   time   adversarial families (open comment + newlines / stars, quotes, digits, ...) of growing length
            D: as `total`
+  seq    nine texts parsed back to back in one process: a checked program, a rejected text (incl. format-like
+         tokens `%s`, `%d`, `{0}`), the same program again, the program with layout in front of / behind it (equal
+         after strip()), another program, a mutated one, and the first once more
+           D: positions of every checked text as for `pos` (offsets / lines / columns of the padded variants from an
+              independent line/column oracle); every text ends in a tree or ParseException
   tight  every ordered pair of representative lexical units (all token classes, all fixed-string tokens, NS::)
          written without a separator; the Lean driver decides `tightOk u v` (Proofs/OalTight.lean proves: then the
          lexer model returns exactly the units' tokens).  Counted: accepted pairs the real lexer agrees on,
@@ -101,6 +106,59 @@ def _pos_case(rng, style, max_depth, max_stmts, empty_blocks, tag):
             'kinds': [t.kind for t in prog.toks], 'gen': tag}
 
 
+def _linecol(text, off):
+    """independent oracle: 1-based line and column of offset `off`"""
+    line = text.count('\n', 0, off) + 1
+    col = off - (text.rfind('\n', 0, off) + 1) + 1
+    return line, col
+
+
+def _shift(item, prefix, suffix=''):
+    """the same program with layout text put in front of / behind it: every token keeps its lexeme"""
+    text = prefix + item['text'] + suffix
+    d = len(prefix)
+    toks = []
+    for st, sp, _, _, _, _ in item['toks']:
+        l1, c1 = _linecol(text, st + d)
+        l2, c2 = _linecol(text, sp + d - 1)
+        toks.append([st + d, sp + d, l1, c1, l2, c2])
+    return {'text': text, 'toks': toks, 'nodes': item['nodes']}
+
+
+BAD_TEXTS = ['x = 1 % ;', 'x = %s;', 'y = %d + 1;', 'select any %s from instances of A;', 'if (a) %(x)s end if;',
+             'z = {0} {1};', 'x = "%s" %% s;', "relate a to b across R1.'%d' %;", 'return %%;', 'x = 1 % % 5.2f;', '% d',
+             'x = ;', 'end if;', 'if (x) y = 1;', 'x = (1 + ;', 'select many from;', 'x = 1 1;', ')', 'x == 1;']
+
+
+def _seq_cases(ctx, n):
+    """several texts parsed back to back in ONE process: a checked program, a rejected text (also with format-like
+    tokens), the same program again, the program with layout in front of / behind it (equal after strip()), another
+    program, the first one once more - positions, line counting and error handling must not leak between parses"""
+    rng = ctx.rng.fork('seq')
+    for i in range(n):
+        r = rng.fork(i)
+        a = _pos_case(r, r.choice(['wild', 'plain']), 3, r.choice([1, 3, 5]), True, ['seq', i, 'a'])
+        b = _pos_case(r, r.choice(['wild', 'tight']), 2, r.choice([1, 2, 4]), True, ['seq', i, 'b'])
+        ia = {'text': a['text'], 'toks': a['toks'], 'nodes': a['nodes']}
+        ib = {'text': b['text'], 'toks': b['toks'], 'nodes': b['nodes']}
+        bad1 = r.choice(BAD_TEXTS)
+        prog = G.gen_program(r, max_depth=2, max_stmts=2)
+        pl = G.layout(r, prog, 'plain')
+        bad2 = G.mutate(r, prog, pl)[1]
+        pre = r.choice([' ', '\n', '\n\n  ', '\t', '/* c */ ', '// c\n', ' \r\n'])
+        suf = r.choice([' ', '\n', ' \n\n', '\t // c\n', ' /* c */'])
+        items = [dict(ia, role='first'),
+                 {'text': bad1, 'role': 'rejected', 'reject': True},
+                 dict(ia, role='again-after-rejected'),
+                 dict(_shift(ia, pre), role='padded-front'),
+                 dict(ib, role='other'),
+                 {'text': bad2, 'role': 'mutated'},
+                 dict(_shift(ia, '', suf), role='padded-back'),
+                 dict(_shift(ib, pre, suf), role='other-padded'),
+                 dict(ia, role='again-last')]
+        yield {'kind': 'seq', 'text': ia['text'], 'items': items}
+
+
 def _time_cases(ctx):
     for n in range(4, ctx.pick(41, 61), 2):
         yield {'kind': 'time', 'family': 'open-comment-newlines', 'n': n, 'text': 'x = 1; /*' + '\n' * n}
@@ -137,6 +195,8 @@ def generate(ctx):
     for c in _time_cases(ctx):
         yield c
     for c in _tight_cases(ctx):
+        yield c
+    for c in _seq_cases(ctx, ctx.pick(250, 4000)):
         yield c
     rng = ctx.rng.fork('pos')
     n_pos = ctx.pick(2600, 40000)
@@ -257,6 +317,39 @@ def _impl_obs(case, lexdata):
     return [obs_t, spans]
 
 
+def _check_positions(text, toks, exp, out, root, st, stats, fails, short):
+    """D for positions on one parsed text; returns `nontrivial`"""
+    nontrivial = False
+    if out != 'tree':
+        # a valid generated program was rejected: not this property's business, but the case cannot be checked
+        stats['pos_unparsed'] = stats.get('pos_unparsed', 0) + 1
+        return False
+    act = _walk_checked(_enc.encode(root, positions=True), [])
+    if [a[0] for a in act] != [e[0] for e in exp]:
+        stats['pos_shape_differs'] = stats.get('pos_shape_differs', 0) + 1     # grouping differs: C07's subject
+        return False
+    lines = text.count('\n') + 1
+    nontrivial = lines >= 2 and any(k in st for k in ('layout-comment', 'layout-line-comment',
+                                                       'layout-end-split', 'layout-phrase-newline'))
+    n0 = len(fails)
+    for (cls, pos, stream), (_, f, l, flag) in zip(act, exp):
+        want = [toks[f][0], toks[f][2], toks[f][3], toks[l][1], toks[l][4], toks[l][5]]
+        wstream = text[toks[f][0]:toks[l][1]]
+        stats['nodes_checked'] = stats.get('nodes_checked', 0) + 1
+        if pos != want or stream != wstream:
+            sig = ('span:' + flag) if flag else 'span:' + cls
+            names = ['start_stream', 'start_line', 'start_column', 'end_stream', 'end_line', 'end_column']
+            diff = ', '.join('%s=%s (is %s)' % (n, p, w) for n, p, w in zip(names, pos or [None] * 6, want)
+                             if p != w)
+            if stream != wstream:
+                diff += ', character_stream=%r (is %r)' % (stream, wstream)
+            fails.append({'sig': sig, 'what': '%s built from tokens %d..%d of %r records %s'
+                          % (cls, f, l, short, diff)})
+            if len(fails) - n0 >= 3:
+                break
+    return nontrivial
+
+
 def run_impl(case):
     text = case['text']
     fails = []
@@ -277,35 +370,28 @@ def run_impl(case):
         for k, v in case.get('stats', {}).items():
             stats['prod_' + k] = v
         stats['style_' + case['style']] = 1
-        toks = case['toks']
-        if out != 'tree':
-            # a valid generated program was rejected: not this property's business, but the case cannot be checked
-            stats['pos_unparsed'] = 1
-        else:
-            act = _walk_checked(_enc.encode(root, positions=True), [])
-            exp = case['nodes']
-            if [a[0] for a in act] != [e[0] for e in exp]:
-                stats['pos_shape_differs'] = 1        # grouping differs from what was written: C07's subject
-            else:
-                lines = text.count('\n') + 1
-                st = case.get('stats', {})
-                nontrivial = lines >= 2 and any(k in st for k in ('layout-comment', 'layout-line-comment',
-                                                                   'layout-end-split', 'layout-phrase-newline'))
-                for (cls, pos, stream), (_, f, l, flag) in zip(act, exp):
-                    want = [toks[f][0], toks[f][2], toks[f][3], toks[l][1], toks[l][4], toks[l][5]]
-                    wstream = text[toks[f][0]:toks[l][1]]
-                    stats['nodes_checked'] = stats.get('nodes_checked', 0) + 1
-                    if pos != want or stream != wstream:
-                        sig = ('span:' + flag) if flag else 'span:' + cls
-                        names = ['start_stream', 'start_line', 'start_column', 'end_stream', 'end_line', 'end_column']
-                        diff = ', '.join('%s=%s (is %s)' % (n, p, w) for n, p, w in zip(names, pos or [None] * 6, want)
-                                         if p != w)
-                        if stream != wstream:
-                            diff += ', character_stream=%r (is %r)' % (stream, wstream)
-                        fails.append({'sig': sig, 'what': '%s built from tokens %d..%d of %r records %s'
-                                      % (cls, f, l, short, diff)})
-                        if len(fails) >= 3:
-                            break
+        nontrivial = _check_positions(text, case['toks'], case['nodes'], out, root, case.get('stats', {}), stats,
+                                      fails, short)
+    elif case['kind'] == 'seq':
+        nontrivial = True
+        stats['seq_texts'] = len(case['items'])
+        for it in case['items'][1:]:
+            o2, r2, s2 = _parse(it['text'])
+            sh2 = it['text'] if len(it['text']) <= 300 else it['text'][:140] + ' ...[%d chars]... ' % len(it['text']) + it['text'][-60:]
+            stats['seq_' + it['role']] = stats.get('seq_' + it['role'], 0) + 1
+            if not (o2 == 'tree' or o2 == 'ParseException'):
+                fails.append({'sig': 'outcome:' + o2, 'what': 'oal.parse(%r) ended with %s (neither a tree nor '
+                              'oal.ParseException), parsed in one process after %r' % (sh2, o2, short)})
+            if it.get('reject') and o2 == 'tree':
+                stats['seq_bad_text_accepted'] = stats.get('seq_bad_text_accepted', 0) + 1
+            if 'toks' in it:
+                before = len(fails)
+                _check_positions(it['text'], it['toks'], it['nodes'], o2, r2, {}, stats, fails, sh2)
+                for f in fails[before:]:
+                    f['sig'] = 'seq-' + it['role'] + ':' + f['sig']
+                    f['what'] += '  [text %s of a sequence parsed back to back in one process, first text: %r]' % (it['role'], short)
+        first = case['items'][0]
+        _check_positions(text, first['toks'], first['nodes'], out, root, {}, stats, fails, short)
     elif case['kind'] == 'total':
         stats['stream_' + case['stream']] = 1
         nontrivial = len(text) > 0
@@ -368,7 +454,7 @@ def model_obs(case, ans):
 
 
 def shrink_candidates(case):
-    if case['kind'] == 'pos':
+    if case['kind'] in ('pos', 'seq', 'tight', 'grammar'):
         return
     text = case['text']
     n = len(text)
